@@ -267,6 +267,13 @@ impl<'a> Session<'a> {
         }
     }
 
+    /// Drops the most recently created cursor (must be `c`).
+    pub fn forget(&mut self, c: usize) {
+        assert_eq!(c, self.cursors.len());
+        self.cursors.pop();
+        self.out.ev(json!({"ev": "Forget", "c": c}));
+    }
+
     pub fn clone_cursor(&mut self, c: usize) -> usize {
         let d = self.cursors[c - 1].clone();
         self.cursors.push(d);
@@ -469,6 +476,11 @@ pub fn corner_files() -> Vec<(Cfg, Vec<Entry>)> {
     for bs in [0usize, 1, 1023, 1025, 2000, 65536] {
         v.push((c(0, bs, 8, 2), (0..200u32).map(|i| ((i * 2).to_be_bytes().to_vec(), value_for(i + 1, 20))).collect()));
     }
+    // deep tree with two blocks on index level 2 *and* several on level 3 (two entries per data block)
+    v.push((c(0, 1024, 8, 3), longs(36, 400)));
+    v.push((c(0, 1024, 1, 4), longs(24, 700)));
+    // the smallest tree with two blocks on index level 2 (model-checked in the quick tier)
+    v.push((c(0, 1024, 8, 2), longs(20, 0)));
     v
 }
 
@@ -729,4 +741,86 @@ pub fn scn_framing(out: &mut TraceOut, r: &mut R, idx: u64, heavy: bool) {
     if let Some(c) = s.cursor(true) {
         s.scan(c, false);
     }
+}
+
+/// Realises a model probe on a real file: q = 2i is stored key i, q = 2i + 1 a byte string
+/// strictly between key i and key i + 1 (before the first key for i = 0, after the last for i = n).
+pub fn model_probe(entries: &[Entry], q: usize) -> Option<Vec<u8>> {
+    let n = entries.len();
+    if q % 2 == 0 {
+        return entries.get(q / 2 - 1).map(|e| e.0.clone());
+    }
+    let i = q / 2;
+    if i == 0 {
+        // before the first key: only the empty string can be below a non-empty first key
+        return if n == 0 || !entries[0].0.is_empty() { Some(vec![]) } else { None };
+    }
+    let mut g = entries[i - 1].0.clone();
+    g.push(0);
+    if i < n && g >= entries[i].0 {
+        return None;
+    }
+    Some(g)
+}
+
+/// Spec -> implementation: replays histories printed by TLC from the CursorImpl model of a
+/// corner file's tree on the real cursor over the same file (rebuilt now from the real writer).
+/// With `extend`, every operation x probe is additionally tried from the state each history
+/// reaches (on a clone), so every transition of the model is executed on the real code.
+pub fn replay_histories(out: &mut TraceOut, corner: usize, hists: &[Vec<(String, usize, i64)>], extend: bool, name: &str) -> (u64, u64) {
+    let (cfg, entries) = corner_files()[corner].clone();
+    let n = entries.len();
+    let all_probes: Vec<(usize, Vec<u8>)> = (1..=2 * n + 1).filter_map(|q| model_probe(&entries, q).map(|p| (q, p))).collect();
+    let mut drift = 0u64;
+    let mut compared = 0u64;
+    for (hi, h) in hists.iter().enumerate() {
+        out.begin(&format!("{}/{}/{}", name, corner, hi));
+        let probes: Vec<Vec<u8>> = all_probes.iter().map(|(_, p)| p.clone()).collect();
+        let (dict, data) = build_and_log(out, &cfg, &entries, &probes, 2);
+        let Some(data) = data else { continue };
+        let mut s = new_session(out, entries.clone(), dict, data);
+        let Some(c) = s.cursor(true) else { continue };
+        let mk = |op: &str, q: usize| -> Option<Op> {
+            Some(match op {
+                "first" => Op::First,
+                "last" => Op::Last,
+                "next" => Op::Next,
+                "prev" => Op::Prev,
+                "current" => Op::Current,
+                "reset" => Op::Reset,
+                "ge" => Op::Ge(model_probe(&entries, q)?),
+                "le" => Op::Le(model_probe(&entries, q)?),
+                "eq" => Op::Eq(model_probe(&entries, q)?),
+                _ => return None,
+            })
+        };
+        let mut realizable = true;
+        for (op, q, expect) in h {
+            let Some(o) = mk(op, *q) else {
+                realizable = false;
+                break;
+            };
+            let res = s.op(c, &o);
+            compared += 1;
+            if res != *expect {
+                drift += 1;
+            }
+        }
+        if !realizable || !extend {
+            continue;
+        }
+        for op in ["first", "last", "next", "prev", "current", "reset"] {
+            let d = s.clone_cursor(c);
+            s.op(d, &mk(op, 0).unwrap());
+            s.forget(d);
+        }
+        for (q, _) in &all_probes {
+            for op in ["ge", "le", "eq"] {
+                let d = s.clone_cursor(c);
+                s.op(d, &mk(op, *q).unwrap());
+                s.forget(d);
+            }
+        }
+    }
+    (compared, drift)
 }
